@@ -48,8 +48,14 @@ func floorSec(ns int64) int64 {
 
 // another secret than k: mostly one that agrees with k on the first 64 bytes
 func otherSecret(r *kit.Rng, k int) int {
+	if k == 4 && r.Chance(1, 4) {
+		return 18 // the HS256-equivalent 64-byte secret
+	}
+	if k == 18 && r.Chance(1, 2) {
+		return 4
+	}
 	for {
-		o := r.Intn(nValidSecrets)
+		o := kit.Pick(r, signingSecrets)
 		if o == k {
 			continue
 		}
@@ -63,7 +69,7 @@ func pickSecret(r *kit.Rng) int {
 	if r.Chance(1, 2) {
 		return 0
 	}
-	return r.Intn(nValidSecrets)
+	return kit.Pick(r, signingSecrets)
 }
 
 func genKeys(r *kit.Rng) *keysSpec {
@@ -74,7 +80,7 @@ func genKeys(r *kit.Rng) *keysSpec {
 	case 1:
 		ks.B = r.Intn(nSecrets)
 	default:
-		ks.A = r.Intn(nValidSecrets)
+		ks.A = kit.Pick(r, signingSecrets)
 		ks.B = otherSecret(r, ks.A)
 	}
 	return ks
@@ -148,7 +154,7 @@ func genMut(r *kit.Rng, tok string) *mutSpec {
 	case 8:
 		return &mutSpec{Op: kit.Pick(r, []string{"dropsig", "dropdot", "appendseg", "pad", "hdrnewline"})}
 	case 9, 10:
-		return &mutSpec{Op: "resign", Arg: r.Intn(nValidSecrets)}
+		return &mutSpec{Op: "resign", Arg: kit.Pick(r, signingSecrets)}
 	case 11, 12:
 		return &mutSpec{Op: "sigtrailbits", Arg: r.Intn(3)}
 	case 13:
@@ -214,7 +220,7 @@ var claimEdits = []edit{
 	{"iat-future", func(m map[string]any, c *forgeCtx) { m["iat"] = kit.Epoch.Unix() + floorSec(c.now)/sec + 1000 }},
 	{"payload-illtyped", func(m map[string]any, c *forgeCtx) {
 		switch c.ptype {
-		case "principal", "altprincipal":
+		case "principal", "altprincipal", "probe":
 			m["Login"] = 5
 		case "blob":
 			m["Workspace"] = "one"
@@ -393,7 +399,7 @@ func emit(cs *caseSpec, out *kit.Out) error {
 // therefore needs payload types without a field that collides with a reserved claim: checked here
 // for the payload types of itokens-payloads on every run.
 func checkReservedNames() error {
-	reserved := []string{"aud", "exp", "iat", "nbf", "iss", "sub", "jti", "Duration", "AppQName", "IssuedAt"}
+	reserved := reservedClaims
 	for _, pt := range []string{"principal", "blob", "verified", "verification"} {
 		b, _ := json.Marshal(newPayload(pt))
 		m := map[string]any{}
